@@ -4,6 +4,11 @@ use crate::plain::Shape;
 use crate::runner::Job;
 
 pub mod c01;
+pub mod c02;
+pub mod c03;
+pub mod c04;
+pub mod c15;
+pub mod c17;
 
 #[derive(Clone, Copy, PartialEq, Eq, Debug)]
 pub enum Tier {
@@ -22,7 +27,7 @@ pub struct CheckDef {
 }
 
 pub fn registry() -> Vec<CheckDef> {
-    vec![c01::def()]
+    vec![c01::def(), c02::def(), c03::def(), c04::def(), c15::def(), c17::def()]
 }
 
 /// deterministic xorshift generator for seeded sampling
